@@ -20,7 +20,8 @@
 #include <stdint.h>
 #include <inttypes.h>
 
-static uint64_t bits(double d) { union {double d; uint64_t u;} x; x.d = d; return x.u; }
+/* NaNs are printed as the canonical quiet NaN: sign and payload of a NaN carry no meaning the model could share */
+static uint64_t bits(double d) { union {double d; uint64_t u;} x; x.d = d; return d != d? 0x7ff8000000000000ull : x.u; }
 static double dbl(uint64_t u) { union {double d; uint64_t u;} x; x.u = u; return x.d; }
 
 static char const * const ENVS[] = {"SOXR_USE_SIMD", "SOXR_USE_SIMD32", "SOXR_USE_SIMD64", "SOXR_MIN_DFT_SIZE", "SOXR_LARGE_DFT_SIZE",
@@ -108,8 +109,10 @@ static void do_create(char * * t, int nt)
   if (!S) { printf("< C err %s\n", err? err : "(null error string)"); return; }
   if (err) { printf("< C ok-with-error %s\n", err); return; }
   itype = (int)S->io_spec.itype; otype = (int)S->io_spec.otype;
-  printf("< C ok engine=%s ready=%d prec=%" PRIu64 " phase=%" PRIu64 " pb=%" PRIu64 " sb=%" PRIu64 " qflags=%lu min=%u large=%u kb=%u threads=%u rtflags=%lu ratio=%" PRIu64 "\n",
-      soxr_engine(S), S->resamplers != 0, bits(S->q_spec.precision), bits(S->q_spec.phase_response), bits(S->q_spec.passband_end),
+  printf("< C ok engine=%s conv=%s ready=%d prec=%" PRIu64 " phase=%" PRIu64 " pb=%" PRIu64 " sb=%" PRIu64 " qflags=%lu min=%u large=%u kb=%u threads=%u rtflags=%lu ratio=%" PRIu64 "\n",
+      soxr_engine(S), (S->interleave == (interleave_t)_soxr_interleave_f && S->deinterleave == (deinterleave_t)_soxr_deinterleave_f)? "f" :
+      (S->interleave == (interleave_t)_soxr_interleave && S->deinterleave == (deinterleave_t)_soxr_deinterleave)? "d" : "?",
+      S->resamplers != 0, bits(S->q_spec.precision), bits(S->q_spec.phase_response), bits(S->q_spec.passband_end),
       bits(S->q_spec.stopband_begin), S->q_spec.flags, S->runtime_spec.log2_min_dft_size, S->runtime_spec.log2_large_dft_size,
       S->runtime_spec.coef_size_kbytes, S->runtime_spec.num_threads, S->runtime_spec.flags, bits(S->io_ratio));
 }
